@@ -121,6 +121,7 @@ impl Out {
     pub fn count(&mut self, key: &str) {
         *self.counters.entry(key.to_string()).or_insert(0) += 1;
     }
+    pub fn counter_value(&self, key: &str) -> u64 { self.counters.get(key).copied().unwrap_or(0) }
     pub fn count_n(&mut self, key: &str, n: u64) {
         *self.counters.entry(key.to_string()).or_insert(0) += n;
     }
